@@ -1,3 +1,4 @@
+\* negative twin: only the property it must violate is checked (TLC reports the first violation it meets)
 SPECIFICATION Spec
 CONSTANTS
   Proc = {"w1", "x"}
@@ -15,16 +16,5 @@ CONSTANTS
   Budget <- Budget2
   Variant = "rewrite_remove_first"
 VIEW View
-INVARIANTS
-  SnapshotData
-  SnapshotIndexed
-  IndexSound
-  ReaderOK
-  TagNeverLoses
-  RewriteNeverLoses
-PROPERTIES
-  W1
-  W2
-  D1
-  D2
+INVARIANT RewriteNeverLoses
 CHECK_DEADLOCK FALSE
